@@ -53,6 +53,8 @@ func main() {
 		debugValues(os.Args[2:])
 	case "debug-reads":
 		debugReads()
+	case "debug-sigs":
+		debugSigs(loadWorld("/repo", nil, ""))
 	case "list":
 		var ids []string
 		for id := range props {
@@ -70,6 +72,8 @@ func usage() {
 	os.Exit(2)
 }
 
+var listObs bool
+
 type checkOpts struct {
 	prop, tier, repo, verif string
 	noEvidence              bool
@@ -86,6 +90,7 @@ func cmdCheck(args []string) int {
 	fs.StringVar(&o.verif, "verif", "/verif", "verif dir")
 	fs.BoolVar(&o.noEvidence, "no-evidence", false, "do not write evidence/violation files")
 	fs.StringVar(&o.variant, "variant", "", "apply the named in-memory variant (self-test only)")
+	fs.BoolVar(&listObs, "list", false, "print every decided instance")
 	fs.Parse(args)
 	if t := os.Getenv("VERIF_TIER"); t != "" && o.tier == "" {
 		o.tier = t
@@ -133,7 +138,7 @@ func runCheck(o checkOpts) (code int) {
 	}
 	w := loadWorld(o.repo, overlay, "")
 	a := newA(w, o.prop, o.tier)
-	def.run(a)
+	runProp(o.prop, a)
 	var vinfo map[string]interface{}
 	if o.tier == "thorough" && o.variant == "" {
 		vinfo = runVariants(o, a)
